@@ -388,84 +388,8 @@ func ruleRPM(p *Prog, r *Report) {
 	}
 	if digitFn != nil {
 		key := "rpm: numeric segments compare as integers of any length, leading zeros ignored"
-		c := newAECtx(p)
-		c.stageMode = false
-		type leaf struct {
-			w   *world
-			got int64
-		}
-		var leaves []leaf
-		oof := c.withRetries(digitFn, func() {
-			leaves = nil
-			c.explore(2, 100000, func(w *world) {
-				leaves = append(leaves, leaf{w.clone(), c.runPair(digitFn, w, 0, 1, nil)})
-			})
-		})
-		pk := "p0"
-		stripK, valK, errK := "", "", ""
-		for k, ti := range c.terms {
-			switch {
-			case strings.HasPrefix(k, "TrimLeft(") && strings.HasSuffix(k, `,"0")`) && len(ti.base) == 1:
-				stripK = k
-			case strings.HasPrefix(k, "Atoi(") && strings.HasSuffix(k, "#0"):
-				valK = k
-			case strings.HasPrefix(k, "Atoi(") && strings.HasSuffix(k, "#1"):
-				errK = k
-			}
-		}
-		emptyAt := func(w *world, ind int) (bool, bool) {
-			v, ok := w.pos[posKey(pk, ind)]
-			if !ok {
-				return false, false
-			}
-			ci := poolIndexStr(c.pools[pk], "")
-			return ci >= 0 && v == 2*ci+1, true
-		}
-		var bad []string
-		rows := map[string]int{}
-		for _, lf := range leaves {
-			desc := lf.w.describe(c.pools, c.terms)
-			ex, okx := emptyAt(lf.w, 0)
-			ey, oky := emptyAt(lf.w, 1)
-			var exp int64
-			row := ""
-			switch {
-			case okx && oky && ex && ey:
-				exp, row = 0, "both empty"
-			case okx && ex:
-				exp, row = -1, "empty vs digits"
-			case oky && ey:
-				exp, row = 1, "digits vs empty"
-			default:
-				e0, h0 := lf.w.pos[posKey(errK, 0)]
-				e1, h1 := lf.w.pos[posKey(errK, 1)]
-				if errK != "" && h0 && h1 && e0 == 0 && e1 == 0 {
-					v, ok := c.cmpAssigned(lf.w, valK, 0, 1)
-					if !ok {
-						bad = append(bad, "parsed values are not compared: ["+desc+"]")
-						continue
-					}
-					exp, row = int64(v), "both fit a machine word"
-				} else {
-					lr, okl := c.cmpAssigned(lf.w, "len("+stripK+")", 0, 1)
-					tr, okt := c.cmpAssigned(lf.w, stripK, 0, 1)
-					switch {
-					case stripK != "" && okl && lr != 0:
-						exp = int64(lr)
-					case stripK != "" && okl && okt:
-						exp = int64(tr)
-					default:
-						bad = append(bad, "runs that do not fit a machine word are not compared zero-stripped by length and then text: ["+desc+"]")
-						continue
-					}
-					row = "arbitrary length"
-				}
-			}
-			rows[row]++
-			if lf.got != exp {
-				bad = append(bad, fmt.Sprintf("row %s: integer order gives %d, the function gives %d [%s]", row, exp, lf.got, desc))
-			}
-		}
+		oof, bad, rows, nleaves := digitsTable(p, digitFn)
+		leaves := make([]struct{}, nleaves)
 		switch {
 		case oof != "":
 			r.Und("R-RPM-DIGITS", key, p.FnPos(digitFn), oof)
@@ -486,4 +410,99 @@ func ruleRPM(p *Prog, r *Report) {
 
 func init() {
 	register("C11", "RPM versions order as rpmvercmp does", ruleRPM)
+}
+
+// digitsTable evaluates a comparator of two digit runs and compares every leaf of its decision table with
+// integer order: both empty tie, an empty run is older than digits, parsed values when both runs fit a
+// machine word, otherwise the zero-stripped runs by length and then by text.
+func digitsTable(p *Prog, digitFn *ssa.Function) (oof string, bad []string, rows map[string]int, nleaves int) {
+	return digitsTableIf(p, digitFn, nil)
+}
+
+// digitsTableIf: the same on the leaves selected by keep (nil: all); leaves without a concrete instance
+// (feasible) are dropped.
+func digitsTableIf(p *Prog, digitFn *ssa.Function, keep func(c *aeCtx, w *world) bool) (oof string, bad []string, rows map[string]int, nleaves int) {
+	c := newAECtx(p)
+	c.stageMode = false
+	type leaf struct {
+		w   *world
+		got int64
+	}
+	var leaves []leaf
+	oof = c.withRetries(digitFn, func() {
+		leaves = nil
+		c.explore(2, 100000, func(w *world) {
+			leaves = append(leaves, leaf{w.clone(), c.runPair(digitFn, w, 0, 1, nil)})
+		})
+	})
+	pk := "p0"
+	stripK, valK, errK := "", "", ""
+	for k, ti := range c.terms {
+		switch {
+		case strings.HasPrefix(k, "TrimLeft(") && strings.HasSuffix(k, `,"0")`) && len(ti.base) == 1:
+			stripK = k
+		case strings.HasPrefix(k, "Atoi(") && strings.HasSuffix(k, "#0"):
+			valK = k
+		case strings.HasPrefix(k, "Atoi(") && strings.HasSuffix(k, "#1"):
+			errK = k
+		}
+	}
+	emptyAt := func(w *world, ind int) (bool, bool) {
+		v, ok := w.pos[posKey(pk, ind)]
+		if !ok {
+			return false, false
+		}
+		ci := poolIndexStr(c.pools[pk], "")
+		return ci >= 0 && v == 2*ci+1, true
+	}
+	rows = map[string]int{}
+	kept := 0
+	for _, lf := range leaves {
+		if keep != nil && (!keep(c, lf.w) || !c.feasible(lf.w)) {
+			continue
+		}
+		kept++
+		desc := lf.w.describe(c.pools, c.terms)
+		ex, okx := emptyAt(lf.w, 0)
+		ey, oky := emptyAt(lf.w, 1)
+		var exp int64
+		row := ""
+		switch {
+		case okx && oky && ex && ey:
+			exp, row = 0, "both empty"
+		case okx && ex:
+			exp, row = -1, "empty vs digits"
+		case oky && ey:
+			exp, row = 1, "digits vs empty"
+		default:
+			e0, h0 := lf.w.pos[posKey(errK, 0)]
+			e1, h1 := lf.w.pos[posKey(errK, 1)]
+			if errK != "" && h0 && h1 && e0 == 0 && e1 == 0 {
+				v, ok := c.cmpAssigned(lf.w, valK, 0, 1)
+				if !ok {
+					bad = append(bad, "parsed values are not compared: ["+desc+"]")
+					continue
+				}
+				exp, row = int64(v), "both fit a machine word"
+			} else {
+				lr, okl := c.cmpAssigned(lf.w, "len("+stripK+")", 0, 1)
+				tr, okt := c.cmpAssigned(lf.w, stripK, 0, 1)
+				switch {
+				case stripK != "" && okl && lr != 0:
+					exp = int64(lr)
+				case stripK != "" && okl && okt:
+					exp = int64(tr)
+				default:
+					bad = append(bad, "runs that do not fit a machine word are not compared zero-stripped by length and then text: ["+desc+"]")
+					continue
+				}
+				row = "arbitrary length"
+			}
+		}
+		rows[row]++
+		if lf.got != exp {
+			bad = append(bad, fmt.Sprintf("row %s: integer order gives %d, the function gives %d [%s]", row, exp, lf.got, desc))
+		}
+	}
+	return oof, bad, rows, kept
 }
